@@ -246,7 +246,7 @@ from into try_from try_into into_existing try_into_existing value other obj Erro
 
 
 def input_idents(text):
-    return set(re.findall(r"[A-Za-z_][A-Za-z0-9_]*", text))
+    return set(re.findall(r"[^\W\d]\w*", text))
 
 
 def foreign_idents(out, text):
